@@ -669,6 +669,10 @@ def build_jobs(q):
                     else:
                         lim = L_SMALL
                     single(("irange", be, lo, nm, incl), lim, 2)
+    for be in BACKENDS_ALL if "BACKENDS_ALL" in globals() else ("Native", "Custom", "GMP"):
+        for lo in (1, 3):
+            for nm in (5, 254):
+                single(("irange", be, lo, nm, "obj"), L_SMALL, 2)
     for nm in range(1, 256):           # deeper: Native, min=1
         single(("irange", "Native", 1, nm, True), L_MID if q else L_DEEP, 1 if q else 2)
     for be in ("Custom", "GMP"):
